@@ -106,6 +106,9 @@ def gen_mut(tp):
     if k == 8:
         # a bundle whose earlier elements are fine and whose last one is not
         return ['badlast', tp.choice(['hibit', 'tag', 'cut'])]
+    if k == 10:
+        # a printable byte in the zero padding of the address
+        return ['padjunk', tp.choice([ord('o'), ord('/'), ord('b')])]
     if k == 9:
         # a blob argument that announces an impossible size
         return ['blobsize', tp.choice([-4, -1, -8, -2 ** 31, 2 ** 31 - 1,
@@ -286,6 +289,13 @@ def mutate(data, mut):
             return data
         b = bytearray(data)
         b[len(b) - 1 - mut[1] % len(b)] ^= 1 << mut[2]
+        return bytes(b)
+    if k == 'padjunk':
+        end = data.find(b'\0')
+        if data[:1] != b'/' or end < 0 or (end + 1) % 4 == 0:
+            return data         # (a single padding byte is the terminator)
+        b = bytearray(data)
+        b[end + 1] = mut[1]
         return bytes(b)
     if k == 'blobsize':
         # (the message was generated with a blob as its second argument:
@@ -647,6 +657,22 @@ def run_case(case, tape, ctx):
                          f'set to {mut[1]} ({err}) still invoked '
                          f'{len(got)} responder(s)')
                 return False
+            elif got and mut is not None and mut[0] == 'padjunk':
+                # whatever a receiver makes of junk in the padding, the
+                # address ends at its first zero byte
+                true_addr = data[:data.find(b'\0')].decode('ascii', 'replace')
+                bad = [g['msg'] for g in got
+                       if g.get('msg') and g['msg'][0] != true_addr]
+                if bad:
+                    viol.add('C18-3', 'padding-glued-onto-address',
+                             f'a message for {true_addr!r} with the byte '
+                             f'{mut[1]:#x} in its address padding was '
+                             f'dispatched as {bad[0][0]!r}')
+                    return False
+                for g in got:
+                    if g['rid'] != 'probe':
+                        reg.fired(g['rid'])
+                return True
             elif got and mut is not None and mut[0] == 'blobsize':
                 viol.add('C18-3', 'malformed-blob-size-dispatched',
                          f'a message whose blob announces the size {mut[1]} '
